@@ -756,6 +756,63 @@ func runMetaCase(bin, dir string, mc *metaCase) {
 			mc.failf("pause state of %s was acknowledged as %v over HTTP, after SIGKILL and restart it is %v", obj, val, has[obj+"!P"])
 		}
 	}
+	// more cycles: the restarted daemon goes through churn of its own and is killed at a random instant, one to three times
+	// over; every time the next one loads a set its predecessor had persisted (or had loaded itself)
+	if mc.Kind == "random" && vw == "" && len(mc.Fails) == 0 && mc.Incon == "" {
+		prev, prevTrace, prevKey := c2, filepath.Join(dir, "trace2.ndjson"), key
+		for cyc := 0; cyc < 1+int(mc.Seed%3); cyc++ {
+			for i, n := 0, 1+rng.Intn(25); i < n; i++ {
+				st, _ := prev.req("POST", churnStep(rng))
+				mc.Ops++
+				if st == 0 {
+					break
+				}
+				if st == 500 {
+					mc.failf("[C10] churn request answered 500 in restart cycle %d", cyc+1)
+				}
+			}
+			time.Sleep(time.Duration(rng.Intn(3000)) * time.Microsecond)
+			prev.kill()
+			var ft []string
+			if b, err := os.ReadFile(fn); err == nil {
+				if ft, err = topoFromDoc(b); err != nil {
+					mc.failf("nsqd.dat after SIGKILL number %d is not a complete document: %v", cyc+2, err)
+					return
+				}
+			}
+			vis := snapshotsOf(prevTrace)
+			delete(vis, "") // the empty set counts only if this predecessor loaded or persisted it
+			for k := range snapshotsOfStrict(prevTrace) {
+				vis[k] = true
+			}
+			vis[prevKey] = true
+			tr := filepath.Join(dir, fmt.Sprintf("trace-cycle%d.ndjson", cyc))
+			nx, err := startChild(bin, data, tr, "")
+			mc.Restarts++
+			if err != nil {
+				mc.failf("nsqd does not start again on the data path after SIGKILL number %d: %v", cyc+2, err)
+				if nx != nil {
+					nx.kill()
+				}
+				return
+			}
+			defer nx.kill()
+			_, b := nx.req("GET", "/stats?format=json")
+			ld, err := topoFromStats(b)
+			if err != nil {
+				mc.Incon = "stats after restart: " + err.Error()
+				return
+			}
+			k := strings.Join(ld, ",")
+			if strings.Join(ft, ",") != k {
+				mc.failf("restart cycle %d: the daemon has %v but nsqd.dat held %v", cyc+2, ld, ft)
+			}
+			if !vis[k] {
+				mc.failf("restart cycle %d: the daemon has topics/channels %v, a set its predecessor (which had loaded %q) never passed through (it persisted %d distinct documents)", cyc+2, ld, prevKey, len(vis))
+			}
+			prev, prevTrace, prevKey = nx, tr, k
+		}
+	}
 }
 
 func min(a, b int) int {
@@ -786,7 +843,13 @@ func countEvents(trace string) (spawn, done int) {
 
 // snapshotsOf: every document the first lifetime took a snapshot of (= states it passed through, under the lock)
 func snapshotsOf(trace string) map[string]bool {
-	out := map[string]bool{"": true}
+	out := snapshotsOfStrict(trace)
+	out[""] = true
+	return out
+}
+
+func snapshotsOfStrict(trace string) map[string]bool {
+	out := map[string]bool{}
 	f, err := os.Open(trace)
 	if err != nil {
 		return out
